@@ -406,3 +406,132 @@ def cost(repo, rep, rule):
                   'calls: the work grows faster than linearly with the depth - both alternatives are normalised although the layout uses one' % counts,
                   nontrivial=True)
     return n
+
+
+# ---------------------------------------------------------------------------------------------------- comment documents (C09.b / C09.d)
+def denote_fill(t):
+    """like denote(), but the blank separators inside a fill choose flat / broken independently (what fill is for); returns a set of texts"""
+    texts = set()
+    seps = []
+
+    def collect(t):
+        k = t[0]
+        if k == 'fill':
+            for x in t[1]:
+                if x[0] == 'fc':
+                    seps.append(x)
+                collect(x)
+        elif k == 'cat':
+            for x in t[1]:
+                collect(x)
+        elif k in ('ann', 'ab', 'grp'):
+            collect(t[1])
+        elif k == 'nest':
+            collect(t[2])
+        elif k == 'fc':
+            collect(t[1])
+            collect(t[2])
+    collect(t)
+    seps = seps[:7]
+
+    def go(t, mode, indent, assign):
+        k = t[0]
+        if k == 't':
+            return t[1]
+        if k == 'nil':
+            return ''
+        if k == 'hl':
+            return '\n' + ' ' * max(indent, 0)
+        if k in ('line', 'soft'):
+            return (' ' if k == 'line' else '') if mode == 'flat' else '\n' + ' ' * max(indent, 0)
+        if k in ('cat', 'fill'):
+            return ''.join(go(x, mode, indent, assign) for x in t[1])
+        if k == 'nest':
+            return go(t[2], mode, indent + t[1], assign)
+        if k == 'ann':
+            return go(t[1], mode, indent, assign)
+        if k == 'ab':
+            return go(t[1], 'break', indent, assign)
+        if k == 'grp':
+            return go(t[1], mode if mode == 'flat' or _flat_forced(t[1]) else 'flat', indent, assign)
+        if k == 'fc':
+            m = assign.get(id(t), mode)
+            return go(t[2] if m == 'flat' else t[1], m, indent, assign)
+        raise ValueError(k)
+    for bits in itertools.product(['break', 'flat'], repeat=len(seps)):
+        texts.add(go(t, 'break', 0, {id(s_): b for s_, b in zip(seps, bits)}))
+    texts.add(go(t, 'flat', 0, {}))
+    return texts
+
+
+COMMENT_TEXTS = ['w', 'two words', 'three little words', '  leading blanks', 'trailing blanks   ', 'wide   gaps  inside', 'tab\tseparated',
+                 'first\nsecond', 'first line\nsecond line', 'para one\n\npara two', 'ends with newline\n', 'x\n \ny', ' ', '\n', 'a\n\n\nb', '#hash inside', 'a b\nc']
+
+
+def comments(repo, rep, rule):
+    """commentdoc(text) interpreted on small concrete texts: in every layout every line starts with '#', the words of the text appear in
+    order and nothing else does, separate lines of the text stay on separate lines; '' is rejected.  Returns the instance count."""
+    import re
+    w = World(repo)
+    m = repo.module('prettyprinter')
+    f = m.funcs.get('commentdoc')
+    if f is None:
+        raise AnalysisError('commentdoc vanished')
+    w.it.eager_generators = {g_.name for g_ in repo.module('utils').funcs.values()}
+    bad, und = [], []
+    ok = 0
+    for text in COMMENT_TEXTS:
+        try:
+            doc = w.call(m, 'commentdoc', [Const(text)])
+            layouts = denote_fill(w.term_of(doc))
+            nd = w.normalize(doc)
+            layouts |= denote_fill(w.term_of(nd))
+        except Raised as e:
+            bad.append('commentdoc(%r) raises %s' % (text, e.what))
+            continue
+        except (Undecided, PathLimit) as e:
+            und.append('%s on commentdoc(%r)' % (e, text))
+            continue
+        words = text.split()
+        src_lines = text.splitlines() or ['']
+        problem = None
+        for lay in sorted(layouts):
+            lines = lay.split('\n')
+            if not all(ln.startswith('#') for ln in lines):
+                problem = 'the layout %r has a line that does not start with "#": the rest of the comment would be read as code' % lay
+                break
+            got_words = ' '.join(ln[1:] for ln in lines).split()
+            if got_words != words:
+                problem = 'the layout %r shows the words %s, the comment text has %s' % (lay, got_words, words)
+                break
+            if len(lines) < len(src_lines):
+                problem = 'the layout %r has %d lines for a comment text of %d lines' % (lay, len(lines), len(src_lines))
+                break
+            if any(ln != ln.rstrip() and ln.strip() == '#' for ln in lines):
+                pass
+        if problem:
+            bad.append('commentdoc(%r): %s' % (text, problem))
+        else:
+            ok += 1
+    # the empty text is rejected (every call site tests the comment for truthiness first)
+    try:
+        w.call(m, 'commentdoc', [Const('')])
+        bad.append("commentdoc('') returns a document instead of rejecting the empty text")
+    except Raised as e:
+        if e.what.startswith('ValueError'):
+            ok += 1
+        else:
+            bad.append("commentdoc('') raises %s" % e.what)
+    except (Undecided, PathLimit) as e:
+        und.append(str(e))
+    n = 1
+    if bad:
+        for i, d in enumerate(bad[:4]):
+            rep.fail(rule, 'comment-lines-start-with-hash' if i == 0 else 'comment-lines-start-with-hash#%d' % (i + 1), f.where, d)
+    else:
+        rep.check(ok >= 12, rule, 'comment-lines-start-with-hash', f.where, 'held on %d interpreted comment texts (all layouts)' % ok,
+                  'only %d comment texts could be interpreted' % ok, nontrivial=True)
+    for u in und[:4]:
+        n += 1
+        rep.undecided(rule, 'commentdoc-interpretable', f.where, u)
+    return n
